@@ -34,6 +34,11 @@ TRUSTED = ["Lean 4.33 kernel; axioms ⊆ {propext, Classical.choice, Quot.sound}
            "multi-thread hammer and the hardware SB litmus are supporting exploration only",
            "the exhaustive 8-bit operand-pair runs are TESTS of the correspondence headers<->model, not kernel proofs; the "
            "theorems are general in the width w <= 64",
+           "plain-store-then-RMW facet (found a genuine defect: x86.h declared the memory operand of add/sub/inc/dec/and/or "
+           "write-only, gcc dropped a preceding plain store; repaired in /repo): this is the COMPILER CONTRACT of the inline-asm "
+           "operand constraints, which the Lean model of the header text does not represent; it is checked at oracle level by "
+           "compiling the real headers at -O1/-O2/-O3 with this gcc (a test over the listed function shapes, not a proof about "
+           "every caller or every compiler)",
            "tie: harness/scen/uatomic.c (real headers, no shim) + Driver/Uatomic.lean; x86-64 only (other architectures' "
            "uatomic headers are not compiled here and not modelled)"]
 
@@ -43,18 +48,23 @@ DRV = os.path.join(vlib.LEAN, ".lake", "build", "bin", "drv_uatomic")
 NPAR = max(1, min(8, vlib.NCPU))
 
 
+# extra builds of the same text at higher optimisation levels, used for the "plain store then RMW" facet
+# (vlib.cc passes -O1 first; a later -O flag wins)
+OPT_BUILDS = [("x86_O2", ["-O2"]), ("x86_O3", ["-O3"]), ("builtins_O2", ["-O2", "-DCONFIG_RCU_USE_ATOMIC_BUILTINS"]),
+              ("x86_gnu99_O2", ["-O2", "-std=gnu99"])]
+PLAINSTORE_BUILDS = ["x86", "x86_O2", "x86_O3", "builtins", "builtins_O2", "x86_gnu99_O2"]
+
+
 def build():
-    logs = []
-    for name, flags in BUILDS:
-        ok, log = vlib.cc("uatomic_" + name, [SRC], flags)
+    from concurrent.futures import ThreadPoolExecutor
+    jobs = [("uatomic_" + name, flags) for name, flags in BUILDS + OPT_BUILDS]
+    jobs += [("uatomic_dis_%s.o" % name, flags + ["-DUATOMIC_DISASM", "-c"]) for name, flags in BUILDS[:2]]
+    with ThreadPoolExecutor(max_workers=min(len(jobs), vlib.NCPU)) as ex:
+        res = list(ex.map(lambda j: (j[0],) + vlib.cc(j[0], [SRC], j[1]), jobs))
+    for name, ok, log in res:
         if not ok:
             return False, "build %s: %s" % (name, log)
-        logs.append(log)
-    for name, flags in BUILDS[:2]:
-        ok, log = vlib.cc("uatomic_dis_%s.o" % name, [SRC], flags + ["-DUATOMIC_DISASM", "-c"])
-        if not ok:
-            return False, "build disasm %s: %s" % (name, log)
-    return True, "\n".join(logs)
+    return True, "\n".join(r[2] for r in res)
 
 
 # ----------------------------------------------------------------------------------------------
@@ -268,7 +278,7 @@ def disasm_check(bname):
 def search_failing_input(chk, builds, heavy_hammer=False):
     """Correspondence broken or disassembly wrong: look for a concrete failing input with the oracle."""
     for bname in builds:
-        for mode in (["exh8", 1 << 40], ["directed"], ["random", 1500000]):
+        for mode in (["plainstore"], ["exh8", 1 << 40], ["directed"], ["random", 1500000]):
             args, rc, out, err = harness(bname, chk.seed + 17, mode)
             if rc == 3:
                 return {"cmd": args, "build": bname, "oracle": [l for l in err.splitlines() if l.startswith("ORACLE")][:5]}
@@ -305,6 +315,10 @@ def run(chk):
                     (bname, ["random", 30000 if quick else 1000000]),
                     (bname, ["hammer", min(4, vlib.NCPU), 50000] if quick else ["hammer", min(8, vlib.NCPU), 2000000]),
                     (bname, ["litmus", 20000 if quick else 400000])]
+    # "plain store then RMW" facet (compiler contract of the asm operands / builtins), -O1, -O2, -O3
+    streams = [(b, ["plainstore"]) for b in PLAINSTORE_BUILDS] + streams
+    if not quick:
+        streams += [("x86_O2", ["directed"]), ("x86_O3", ["random", 300000]), ("builtins_O2", ["directed"])]
     streams += [("x86_gnu99", ["rtype"]), ("x86_gnu99", ["directed", "light"] if quick else ["directed"]),
                 ("x86_gnu99", ["exh8", 97 if quick else 7]), ("x86_gnu99", ["random", 5000 if quick else 200000])]
     bad = None
@@ -326,7 +340,12 @@ def run(chk):
                        "width), offsets rotating over all naturally aligned positions of a 16-byte window, images all-00/all-ff/"
                        "random; exh8 = all 256x256 (old, operand) pairs of every op, both signednesses (all checked by the C oracle; "
                        "every %s printed and replayed on the model); random = VERIF_SEED-driven cases. non-trivial = the "
-                       "operation changed memory or returned a value; distinct = different line text (measured)"
+                       "operation changed memory or returned a value; distinct = different line text (measured). "
+                       "plainstore = for every RMW op x 8 pointee types x {global, function-local static, object malloc'ed in the "
+                       "function, pointer parameter}: noinline functions `*p=a; cmm_barrier(); *p=b; uatomic_op(p,v); return *p` "
+                       "(also without the first store, and `before=*p; uatomic_op(p,v); return *p`), 6-12 value tuples each, "
+                       "compiled at -O1/-O2/-O3 (x86), -O1/-O2 (builtins), -O2 (gnu99); checked by the C reference (oracle "
+                       "level) and replayed on the model as ordinary lines"
                        % ("7th" if quick else "one"))
     # disassembly check (default build mandatory; builtins build with the same rules)
     dis_problems = []
